@@ -405,8 +405,10 @@ def syncAct2 (r : Val) (b : Bound) : Val :=
       (if b.1.isMap then modifyAt b.1.path (updateOp v) r else modifyAt b.1.path (extendOp v) r)
     else r
 
-theorem syncLoop1_eq (sp : Bool) : syncLoop1 sp = fun r b => if (!b.1.repeated || sp) then syncAct1 r b else r := rfl
-theorem syncLoop2_eq (sp : Bool) : syncLoop2 sp = fun r b => if (b.1.repeated && !sp) then syncAct2 r b else r := rfl
+theorem syncLoop1_eq (sp : Bool) :
+    syncLoop1 sp = fun r b => if (!b.1.repeated || (sp && !b.1.rawOwner)) then syncAct1 r b else r := rfl
+theorem syncLoop2_eq (sp : Bool) :
+    syncLoop2 sp = fun r b => if (b.1.repeated && (!sp || b.1.rawOwner)) then syncAct2 r b else r := rfl
 
 theorem isListV_elim {v : Val} (h : isListV v = true) : ∃ xs, v = .list xs := by
   cases v <;> simp [isListV] at h; exact ⟨_, rfl⟩
@@ -485,9 +487,10 @@ theorem applySync_eq_eff (sp : Bool) (bs : List Bound) (r : Val)
     applySync sp bs r = bs.foldl effStep r := by
   unfold applySync
   rw [syncLoop1_eq, syncLoop2_eq, foldl_ite_filter, foldl_ite_filter]
-  have hc : (fun b : Bound => (b.1.repeated && !sp)) = fun b => !((fun b : Bound => (!b.1.repeated || sp)) b) := by
-    funext b; cases h : b.1.repeated <;> cases sp <;> simp [h]
-  have hperm := List.filter_append_perm (fun b : Bound => (!b.1.repeated || sp)) bs
+  have hc : (fun b : Bound => (b.1.repeated && (!sp || b.1.rawOwner))) =
+      fun b => !((fun b : Bound => (!b.1.repeated || (sp && !b.1.rawOwner))) b) := by
+    funext b; cases h : b.1.repeated <;> cases sp <;> cases h' : b.1.rawOwner <;> simp [h, h']
+  have hperm := List.filter_append_perm (fun b : Bound => (!b.1.repeated || (sp && !b.1.rawOwner))) bs
   rw [hc]
   rw [foldl_two syncAct1 syncAct2 _ _ r (perm_good hperm hg) (perm_pf hperm hpf) (perm_unset hperm hu)]
   · exact foldl_eff_perm hperm (perm_pf hperm hpf) r
@@ -1206,5 +1209,12 @@ example : (match fieldsMappingP exSchema false exReq [["parent"], ["tags"]] with
     | .error _ => ([], [])) =
     (["self", "requests", "retry", "timeout", "metadata"],
      ["self", "request", "parent", "tags", "retry", "timeout", "metadata"]) := by decide
+
+/-- **two repeated keys of a dependency-package request** (`FileDescriptorProto`: "dependency,public_dependency"):
+the sync macro's second pass emits the second `if` one column too far to the right — client.py does not compile. -/
+theorem cross_two_repeated_counterexample :
+    emitIndentOk false [⟨["dependency"], [], ⟨"google.protobuf.FileDescriptorProto", false, ⟨"dependency", 3, .prim, true, false, false⟩⟩⟩,
+                        ⟨["public_dependency"], [], ⟨"google.protobuf.FileDescriptorProto", false, ⟨"public_dependency", 10, .prim, true, false, false⟩⟩⟩] = false ∧
+    emitIndentOk false [⟨["dependency"], [], ⟨"google.protobuf.FileDescriptorProto", false, ⟨"dependency", 3, .prim, true, false, false⟩⟩⟩] = true := by decide
 
 end GapicModel.Props.C05
